@@ -192,6 +192,15 @@ def make_subscriber(rec: Recorder):
     return _sub
 
 
+def make_witness_subscriber(rec: Recorder):
+    """A second subscriber that never fails: what it is shown must not depend on whether the first
+    one raised (registered after it, so a loop that stops at the first failure starves it)."""
+    def _sub2(interp):
+        rec.log.append(("sub2", rec.live_cfg(interp), interp.status, rec.now()))
+
+    return _sub2
+
+
 def make_emit_listener(rec: Recorder):
     def _l(event):
         rec.log.append(("emit", event.type))
